@@ -441,6 +441,24 @@ func c01(run *core.Run, replay string) {
 				Shape: sh, Size: []int{5207, 20487, 1024, 900, 40000}[(ci+vi)%5], Seed: S + int64(ci*7+vi), HintMode: hints[(ci+vi)%len(hints)], DecJobs: decJ[(ci+vi)%len(decJ)]})
 		}
 	}
+	// 6f. the skipBlocks option: stored (incompressible / already compressed) blocks followed by compressible ones handled by the
+	// same task slot, several batches
+	for ci, cf2 := range [][2]string{{"LZ", "HUFFMAN"}, {"ROLZX", "NONE"}, {"TEXT+RLT", "TPAQX"}, {"LZX", "ANS0"}, {"BWT+RANK+ZRLT", "FPAQ"}, {"NONE", "RANGE"}} {
+		for vi, sh := range []string{"randtext", "magicmix", "repeatblocks"} {
+			for ji, j := range []uint{1, 2, 3} {
+				if !run.Thorough() && (ci+vi+ji)%2 == 1 {
+					continue
+				}
+				bs := []uint{4096, 16384, 1024}[(ci+vi)%3]
+				sz := 12*int(bs) + 100
+				if kz.Heavy(cf2[1]) {
+					sz = 5*int(bs) + 100
+				}
+				add(rtCase{Cfg: kz.Cfg{Transform: cf2[0], Entropy: cf2[1], BlockSize: bs, Jobs: j, Checksum: cks[(ci+vi)%3], SkipBlocks: true},
+					Shape: sh, Size: sz, Seed: S + int64(ci*9+vi*3+ji), HintMode: "absent", DecJobs: decJ[(ci+vi+ji)%len(decJ)]})
+			}
+		}
+	}
 	// both variants of the text codec on vocabularies that overflow the dictionary, in a block shorter than the block size
 	for vi, e := range []string{"NONE", "FPAQ", "HUFFMAN", "ANS1", "RANGE", "FPAQ"} {
 		for q := 0; q < 2; q++ {
